@@ -613,6 +613,18 @@ class Parser(ExprParser):
         if self.token.typ == "LPAREN":  # peek
             node.params = self.parameter_list()
 
+            if len(node.params) == 1:
+                only = node.params[0]
+                if (only.declarator is None and only.specifier == ["void"]
+                    and (only.const or only.volatile or only.storage
+                         or only.array or only.init is not None
+                         or any(v is not None for v in only.attrs.values()))):
+                    # (const void), (void +attr): neither "no parameters"
+                    # nor a parameter of a complete type.
+                    self.error_msg(
+                        "'void' as the only parameter means no parameters; "
+                        "it cannot have qualifiers, attributes or a value")
+
             # Look for (void), set to no parameters.
             if len(node.params) == 1:
                 chk = node.params[0]
